@@ -1084,6 +1084,13 @@ def unify_types(t1: tp.Type, t2: tp.Type, factory,
             return {}
 
         if t_arg2.is_wildcard():
+            # Two projections unify only if they go in the same direction.
+            if t_arg1.variance != t_arg2.variance or (
+                    (t_arg1.bound is None) != (t_arg2.bound is None)):
+                return {}
+            if t_arg2.bound is None:
+                # Two star projections; there is nothing to bind.
+                continue
             t_arg2 = t_arg2.bound
             t_arg1 = t_arg1.bound
 
